@@ -13,16 +13,19 @@ EXTENDS Naturals, Sequences, FiniteSets, TLC, Json, IOUtils
 
 CONSTANT Failing(_)
 
-Items == JsonDeserialize(IOEnv.OBS_FILE).items
+\* JsonDeserialize is re-evaluated on every use; parse once into a TLC register
+\* (TLCSet in the initial predicate; judges run with -workers 1).
+Items == TLCGet(1)
 
 VARIABLE i
 
-JInit == i = 0
-JNext == /\ i <= Len(Items)
-         /\ IF i = Len(Items)
+JInit == i = 0 /\ TLCSet(1, JsonDeserialize(IOEnv.OBS_FILE).items)
+JNext == \E items \in {Items} :
+         /\ i <= Len(items)
+         /\ IF i = Len(items)
             THEN PrintT(<<"DONE", ToJson([n |-> i])>>)
-            ELSE \E f \in {Failing(Items[i + 1])} :
-                   f # {} => PrintT(<<"DIAG", ToJson([id |-> Items[i + 1].id, clauses |-> f])>>)
+            ELSE \E f \in {Failing(items[i + 1])} :
+                   f # {} => PrintT(<<"DIAG", ToJson([id |-> items[i + 1].id, clauses |-> f])>>)
          /\ i' = i + 1
 JSpec == JInit /\ [][JNext]_i
 =============================================================================
